@@ -492,6 +492,20 @@ func propCondSplit(args []string) string {
 	if !inClass {
 		return "skip"
 	}
+	// calling it again on the SAME tree (as a planner re-planning a statement does) must give the same
+	// split and leave the tree as it was
+	{
+		shared := influxql.CloneExpr(cond)
+		before := sexpExpr(shared)
+		r1, t1, e1 := influxql.ConditionExpr(shared, valuer)
+		r2, t2, e2 := influxql.ConditionExpr(shared, valuer)
+		if (e1 == nil) != (e2 == nil) || (e1 == nil && (sexpExpr(r1) != sexpExpr(r2) || !t1.Min.Equal(t2.Min) || !t1.Max.Equal(t2.Max))) {
+			return fmt.Sprintf("ConditionExpr called twice on the same tree of %q gives different results: (%v, %v..%v, %v) then (%v, %v..%v, %v)", text, r1, t1.Min, t1.Max, e1, r2, t2.Min, t2.Max, e2)
+		}
+		if after := sexpExpr(shared); after != before {
+			return fmt.Sprintf("ConditionExpr changed the condition it was called on: %q became %s", text, shared)
+		}
+	}
 	res, tr, err := influxql.ConditionExpr(influxql.CloneExpr(cond), valuer)
 	if err != nil {
 		m := err.Error()
